@@ -30,6 +30,9 @@ pub enum CEdit {
     RewriteOlder(u16, u16),
     /// start `group --cache` and SIGKILL it after this many milliseconds
     Kill(u8),
+    /// create the key file of the `needkey` transform (outside the scanned tree) if it is absent: without
+    /// it the transform fails after partial output for every file
+    ToggleKey,
 }
 
 #[derive(Clone, Debug, Serialize, Deserialize)]
@@ -47,6 +50,10 @@ pub struct C12Case {
     pub files: Vec<Content>,
     pub steps: Vec<Step>,
     pub ext4: bool,
+    /// the scanned directory holds two freshly mounted tmpfs file systems whose files were created in
+    /// the same order (equal inode numbers) with equal lengths and equal mtimes but different bytes
+    #[serde(default)]
+    pub twin_fs: bool,
 }
 
 const SIZES: [u64; 8] = [5000, 16384, 20000, 65536, 70000, 100000, 131072, 140000];
@@ -76,13 +83,14 @@ fn case_strategy() -> BoxedStrategy<C12Case> {
         1 => (0u16..u16::MAX, 0u16..u16::MAX).prop_map(|(a, b)| CEdit::HardLink(a, b)),
         2 => (0u16..u16::MAX, 0u16..u16::MAX).prop_map(|(a, b)| CEdit::RewriteOlder(a, b)),
         1 => (1u8..30).prop_map(CEdit::Kill),
+        1 => Just(CEdit::ToggleKey),
     ];
     let knob = || prop::option::weighted(0.3, (0u16..u16::MAX).prop_map(|i| SIZE_KNOBS[pick(i, SIZE_KNOBS.len())]));
-    let tr = prop::option::weighted(0.3, prop_oneof![Just(TrOp::Cat), Just(TrOp::Upper), Just(TrOp::Head(5000)), Just(TrOp::Head(17000)), Just(TrOp::Expand), Just(TrOp::Header)].prop_map(|op| Tr { op, io: TrIo::Pipe }));
+    let tr = prop::option::weighted(0.3, prop_oneof![Just(TrOp::Cat), Just(TrOp::Upper), Just(TrOp::Head(5000)), Just(TrOp::Head(17000)), Just(TrOp::Expand), Just(TrOp::Header), Just(TrOp::NeedKey), Just(TrOp::NeedKey)].prop_map(|op| Tr { op, io: TrIo::Pipe }));
     let step = (proptest::collection::vec(edit, 0..4), prop_oneof![3 => Just(0u8), 1 => 0u8..7], tr, knob(), knob(), prop_oneof![2 => Just(1u8), 1 => Just(2u8), 1 => Just(0u8)])
         .prop_map(|(edits, hash_fn, transform, max_prefix, max_suffix, disk)| Step { edits, hash_fn, transform, max_prefix, max_suffix, disk });
-    (proptest::collection::vec(content(), 3..8), proptest::collection::vec(step, 1..=6), prop::bool::weighted(0.5))
-        .prop_map(|(files, mut steps, ext4)| {
+    (proptest::collection::vec(content(), 3..8), proptest::collection::vec(step, 1..=6), prop::bool::weighted(0.5), prop::bool::weighted(0.15))
+        .prop_map(|(files, mut steps, ext4, twin_fs)| {
             // option changes between steps are the exception; mostly keep the configuration of the first step
             for i in 1..steps.len() {
                 if i % 3 != 2 {
@@ -107,9 +115,25 @@ fn case_strategy() -> BoxedStrategy<C12Case> {
                     }
                 }
             }
-            C12Case { files, steps, ext4 }
+            // a transform that needs its key: the first run has no key, the second step provides it
+            if matches!(steps[0].transform.as_ref().map(|t| &t.op), Some(TrOp::NeedKey)) && steps.len() > 1 {
+                steps[1].transform = steps[0].transform.clone();
+                steps[1].hash_fn = steps[0].hash_fn;
+                steps[1].edits.insert(0, CEdit::ToggleKey);
+            }
+            C12Case { files, steps, ext4, twin_fs }
         })
         .boxed()
+}
+
+/// Unmounts the twin file systems when the case ends, whichever way it ends.
+struct MountGuard(Vec<PathBuf>);
+impl Drop for MountGuard {
+    fn drop(&mut self) {
+        for m in &self.0 {
+            let _ = std::process::Command::new("umount").arg("-l").arg(m).stdout(std::process::Stdio::null()).stderr(std::process::Stdio::null()).status();
+        }
+    }
 }
 
 struct World {
@@ -122,7 +146,17 @@ struct World {
 }
 
 fn list(dir: &Path) -> Vec<PathBuf> {
-    let mut v: Vec<PathBuf> = std::fs::read_dir(dir).map(|rd| rd.filter_map(|e| e.ok()).map(|e| e.path()).filter(|p| p.is_file()).collect()).unwrap_or_default();
+    let mut v: Vec<PathBuf> = vec![];
+    if let Ok(rd) = std::fs::read_dir(dir) {
+        for e in rd.filter_map(|e| e.ok()) {
+            let p = e.path();
+            if p.is_file() {
+                v.push(p);
+            } else if p.is_dir() {
+                v.extend(std::fs::read_dir(&p).map(|rd| rd.filter_map(|e| e.ok()).map(|e| e.path()).filter(|p| p.is_file()).collect::<Vec<_>>()).unwrap_or_default());
+            }
+        }
+    }
     v.sort();
     v
 }
@@ -271,6 +305,18 @@ impl World {
                 let _ = std::fs::hard_link(&p, &q);
                 format!("hardlink {} -> {}", q.display(), p.display())
             }
+            CEdit::ToggleKey => {
+                // only ever absent -> present: a transform whose outcome for an unchanged file turns from
+                // success into failure is not a function of the file any more, and a cache may keep
+                // serving its earlier, successful result
+                let key = cd.base.join("key");
+                if key.exists() {
+                    String::new()
+                } else {
+                    let _ = std::fs::write(&key, b"k");
+                    "create the transform's key file".to_string()
+                }
+            }
             CEdit::Kill(ms) => {
                 let opts = step_opts(step, true);
                 let mut cmd = std::process::Command::new(FCLONES_BIN);
@@ -302,10 +348,56 @@ pub fn run_case(c: &C12Case, n: u64) -> Verdict {
     let dir = cd.tree().join("r");
     std::fs::create_dir_all(&dir).unwrap();
     let mut w = World { dir: dir.clone(), clock_ms: BASE_TIME * 1000, counter: 0, inode_reuse: 0, same_len_rewrites_after_cached_run: 0, older_rewrites: 0 };
-    for f in &c.files {
-        let p = w.fresh_name();
-        w.write(&p, &f.bytes());
+    let mut mounts: Vec<PathBuf> = vec![];
+    let mut twins = 0;
+    if c.twin_fs {
+        for name in ["fsA", "fsB"] {
+            let m = dir.join(name);
+            let _ = std::fs::create_dir_all(&m);
+            let ok = std::process::Command::new("mount").args(["-t", "tmpfs", "-o", "size=16m", "tmpfs"]).arg(&m).stdout(std::process::Stdio::null()).stderr(std::process::Stdio::null()).status().map(|s| s.success()).unwrap_or(false);
+            if ok {
+                mounts.push(m);
+            }
+        }
     }
+    let unmount = |mounts: &Vec<PathBuf>| {
+        for m in mounts {
+            let _ = std::process::Command::new("umount").arg("-l").arg(m).stdout(std::process::Stdio::null()).stderr(std::process::Stdio::null()).status();
+        }
+    };
+    if mounts.len() == 2 {
+        use std::os::unix::fs::MetadataExt;
+        for (i, f) in c.files.iter().enumerate() {
+            let a = mounts[0].join(format!("t{}", i));
+            let b = mounts[1].join(format!("t{}", i));
+            let bytes = f.bytes();
+            let mut other = bytes.clone();
+            if !other.is_empty() {
+                let mid = other.len() / 2;
+                other[mid] = other[mid].wrapping_add(1);
+            }
+            let _ = std::fs::write(&a, &bytes);
+            let _ = std::fs::write(&b, &other);
+            w.stamp(&a);
+            // the twin carries exactly the same modification time
+            if let Ok(m) = std::fs::metadata(&a) {
+                set_times(&b, m.mtime(), m.mtime_nsec(), BASE_TIME);
+            }
+            if let (Ok(ma), Ok(mb)) = (std::fs::metadata(&a), std::fs::metadata(&b)) {
+                if ma.ino() == mb.ino() && ma.dev() != mb.dev() {
+                    twins += 1;
+                }
+            }
+        }
+    } else {
+        unmount(&mounts);
+        mounts.clear();
+        for f in &c.files {
+            let p = w.fresh_name();
+            w.write(&p, &f.bytes());
+        }
+    }
+    let _mount_guard = MountGuard(mounts.clone());
     let roots = vec![std::ffi::OsString::from("r")];
     let mut history: Vec<String> = vec![];
     let mut cached_runs = 0;
@@ -367,6 +459,12 @@ pub fn run_case(c: &C12Case, n: u64) -> Verdict {
     if w.older_rewrites > 0 {
         classes.push("rewrite-with-older-mtime".into());
     }
+    if twins > 0 {
+        classes.push("twin-file-systems-equal-inode-numbers".into());
+    }
+    if c.steps.iter().any(|s| matches!(s.transform.as_ref().map(|t| &t.op), Some(TrOp::NeedKey))) {
+        classes.push("transform-that-fails-without-its-key".into());
+    }
     if c.ext4 {
         classes.push("ext4".into());
     }
@@ -380,7 +478,7 @@ pub fn check(tier: Tier) -> i32 {
     cleanup_process_scratch();
     ctx.finish(
         "exploration",
-        "proptest-generated histories of 1-6 steps over 3-7 files of 5-140 KB that share long prefixes and suffixes (two content classes, single-byte differences at stage-boundary offsets): each step applies 0-3 edits (create, in-place rewrite of the same length with a newer or with an older mtime, make identical to another file, append/truncate with or without keeping the mtime, rename, delete+recreate under the same name - on ext4 the inode is usually reused, counted -, hard link, SIGKILL of a running `group --cache` after 1-29 ms) and then runs `group` uncached, cached (cold for this step) and cached again (warm), all with the same options; options (hash fn, transform - also the same program with other arguments -, max-prefix/suffix, pinned device) change on some steps. Every content change gets a fresh mtime (next value of a logical clock with 1 ms steps, or for the 'older' rewrites a fresh value 1 ms below every earlier one): the mtime always changes, which is the premise of the property. Oracle (model = the uncached tool): report bodies incl. hashes and statistics must be byte-identical. Non-trivial = a same-length in-place rewrite or an inode-reusing recreate after a cached run, followed by a run with the same hash function.",
+        "proptest-generated histories of 1-6 steps over 3-7 files of 5-140 KB that share long prefixes and suffixes (two content classes, single-byte differences at stage-boundary offsets): each step applies 0-3 edits (create, in-place rewrite of the same length with a newer or with an older mtime, make identical to another file, append/truncate with or without keeping the mtime, rename, delete+recreate under the same name - on ext4 the inode is usually reused, counted -, hard link, SIGKILL of a running `group --cache` after 1-29 ms, creation of the key file without which the `needkey` transform fails after partial output) and then runs `group` uncached, cached (cold for this step) and cached again (warm), all with the same options; options (hash fn, transform - also the same program with other arguments -, max-prefix/suffix, pinned device) change on some steps. Every content change gets a fresh mtime (next value of a logical clock with 1 ms steps, or for the 'older' rewrites a fresh value 1 ms below every earlier one): the mtime always changes, which is the premise of the property. In 15 % of the histories the scanned directory holds two freshly mounted tmpfs file systems whose files were created in the same order (equal inode numbers, counted) with equal lengths and mtimes but different bytes. Oracle (model = the uncached tool): report bodies incl. hashes and statistics must be byte-identical. Non-trivial = a same-length in-place rewrite or an inode-reusing recreate after a cached run, followed by a run with the same hash function.",
         &["mtimes are set by the harness with millisecond steps", "XDG_CACHE_HOME is private to the history"],
     )
 }
